@@ -60,7 +60,7 @@ def findPartPath (p : Package) (rels : Rels) (relType base fallback : Str) : Str
   | [] => fallback
   | t :: _ => t
 
-def relTypePrefix : Str := S!"http://schemas.openxmlformats.org/officeDocument/2006/relationships/"
+def relTypePrefix : Str := relTypeTransitional
 
 structure PartPaths where
   mainDocument : Str
